@@ -5,6 +5,7 @@ import (
 	"fmt"
 	"io"
 	"reflect"
+	"strings"
 
 	hio "github.com/hprose/hprose-golang/v3/io"
 
@@ -152,65 +153,86 @@ func runC05(a Args) tr.Summary {
 		j := rng.Intn(i + 1)
 		order[i], order[j] = order[j], order[i]
 	}
+	// streams with class definitions first (a quota of them: names and field names are where views of the
+	// read buffer are kept across reads), then the walk over everything
+	isStruct := func(g gen.Gen) bool {
+		return strings.Contains(g.Name, "Tagged") || strings.Contains(g.Name, "Derived") || strings.Contains(g.Name, "Plain") ||
+			strings.Contains(g.Name, "Base") || strings.Contains(g.Name, "Extra") || strings.Contains(g.Name, "Node") || strings.Contains(g.Name, "anon{")
+	}
+	var first, rest []int
 	for _, gi := range order {
-		g := gs[gi]
-		for vi, v := range g.Vals {
-			for _, mode := range []string{"simple", "ref"} {
-				if streams >= maxStreams {
-					continue
-				}
-				b, e1, e2 := safeMarshal(v.V.Interface(), mode == "simple")
-				if e1 != "" || e2 != "" || len(b) == 0 || len(b) > maxLen || seenStream[mode+string(b)] {
-					continue
-				}
-				seenStream[mode+string(b)] = true
-				streams++
-				base := c05Case{Shape: g.Name, Class: v.Class, Index: vi, Mode: mode, Cut: -1, Dest: "typed"}
-				var plans [][]int
-				for k := 1; k < len(b); k++ { // two-way splits
-					plans = append(plans, []int{k})
-				}
-				for k := 1; k <= 7 && k < len(b); k++ { // fixed chunk sizes
-					p := []int{}
-					for x := 0; x < len(b); x += k {
-						p = append(p, k)
+		if isStruct(gs[gi]) {
+			first = append(first, gi)
+		} else {
+			rest = append(rest, gi)
+		}
+	}
+	structQuota := maxStreams / 4
+	for pass, list := range [][]int{first, rest} {
+		for _, gi := range list {
+			g := gs[gi]
+			for vi, v := range g.Vals {
+				for _, mode := range []string{"simple", "ref"} {
+					if streams >= maxStreams || pass == 0 && streams >= structQuota {
+						continue
 					}
-					plans = append(plans, p)
-				}
-				for r := 0; r < 4; r++ { // seeded sequences with zero-length reads
-					p := []int{}
-					for x := 0; x < len(b); {
-						n := rng.Intn(5)
-						p = append(p, n)
-						x += n
+					lim := maxLen
+					if pass == 0 {
+						lim = maxLen * 3 / 2
 					}
-					plans = append(plans, p)
-				}
-				// typed and interface{} destinations
-				for _, p := range plans {
-					c := base
-					c.Plan = p
-					one(c, g, b)
-					c.Dest = "iface"
-					one(c, g, b)
-				}
-				// truncations, byte by byte, read one byte at a time and in two pieces
-				if len(b) <= 36 {
-					for cut := 1; cut < len(b); cut++ {
-						c := base
-						c.Cut = cut
+					b, e1, e2 := safeMarshal(v.V.Interface(), mode == "simple")
+					if e1 != "" || e2 != "" || len(b) == 0 || len(b) > lim || seenStream[mode+string(b)] {
+						continue
+					}
+					seenStream[mode+string(b)] = true
+					streams++
+					base := c05Case{Shape: g.Name, Class: v.Class, Index: vi, Mode: mode, Cut: -1, Dest: "typed"}
+					var plans [][]int
+					for k := 1; k < len(b); k++ { // two-way splits
+						plans = append(plans, []int{k})
+					}
+					for k := 1; k <= 7 && k < len(b); k++ { // fixed chunk sizes
 						p := []int{}
-						for x := 0; x < cut; x++ {
-							p = append(p, 1)
+						for x := 0; x < len(b); x += k {
+							p = append(p, k)
 						}
-						c.Plan = p
-						one(c, g, b[:cut])
-						c.Plan = []int{cut / 2}
-						one(c, g, b[:cut])
+						plans = append(plans, p)
 					}
-				}
-				if len(sum.Samples) < 4 && streams%150 == 1 {
-					sum.Samples = append(sum.Samples, tr.Rec{"shape": g.Name, "class": v.Class, "mode": mode, "bytes": string(b), "plans": len(plans)})
+					for r := 0; r < 4; r++ { // seeded sequences with zero-length reads
+						p := []int{}
+						for x := 0; x < len(b); {
+							n := rng.Intn(5)
+							p = append(p, n)
+							x += n
+						}
+						plans = append(plans, p)
+					}
+					// typed and interface{} destinations
+					for _, p := range plans {
+						c := base
+						c.Plan = p
+						one(c, g, b)
+						c.Dest = "iface"
+						one(c, g, b)
+					}
+					// truncations, byte by byte, read one byte at a time and in two pieces
+					if len(b) <= 36 {
+						for cut := 1; cut < len(b); cut++ {
+							c := base
+							c.Cut = cut
+							p := []int{}
+							for x := 0; x < cut; x++ {
+								p = append(p, 1)
+							}
+							c.Plan = p
+							one(c, g, b[:cut])
+							c.Plan = []int{cut / 2}
+							one(c, g, b[:cut])
+						}
+					}
+					if len(sum.Samples) < 4 && streams%150 == 1 {
+						sum.Samples = append(sum.Samples, tr.Rec{"shape": g.Name, "class": v.Class, "mode": mode, "bytes": string(b), "plans": len(plans)})
+					}
 				}
 			}
 		}
